@@ -57,6 +57,8 @@ Scalars ==
           DT(2021, 1, 15, 43200, 0, 0, "London"),
           DT(2021, 7, 15, 43200, 0, 3600, "London"),
           DT(2021, 1, 15, 43200, 0, -43200, "GMT+12"),
+          DT(2021, 1, 15, 43200, 0, -10800, "Argentina/Buenos_Aires"),   \* three-segment ids keep two segments as their name
+          DT(2021, 7, 15, 43200, 0, -18000, "North_Dakota/Center"),
           DT(1999, 12, 31, 86399, 999000000, 0, "UTC"),
           DT(2021, 12, 31, 50400, 0, 36000, "Brisbane")}       \* local date is the next year
     \cup {Coord("0x0000000000000000", "0x0000000000000000"),
